@@ -63,4 +63,15 @@ CHECKS = {
            "beyond the abstract family; corpus agreement."),
   "design_ref": "DESIGN.md §5 C16", "note": _NOTE,
   "technique": "static analysis: formula evaluation of helper ASTs on abstract trees; loop-step check for variation points; totality (no reachable raise) on the root-only model"},
+ "C18": {
+  "text": ("Decides C18 over a complete finite family of abstract expression trees (all trees to depth 1 over three "
+           "names, depth-2 trees over operand-shape representatives; the predicates observe nothing finer): "
+           "requires/excludes reports are truth-table-equivalent to l->r / not(l and r) for the pair the library "
+           "extracts; the seven documented forms are reported; kind predicates equal the operator-list definitions "
+           "(lists read from flamapy.core source); simple/complex consistent; every complex constraint exactly one of "
+           "pseudo/strict; no query raises or stores into the (frozen) constraint; reported features = names occurring; "
+           "the conjunction of split parts is equivalent (evaluating the dependency's simplify/propagate/to_cnf "
+           "from source). Not decided: split equivalence for deeper trees."),
+  "design_ref": "DESIGN.md §5 C18", "note": _NOTE,
+  "technique": "static analysis: predicate ASTs (incl. dependency source) decided as formulas over a complete finite family of abstract expression-tree shapes; truth-table oracle; frozen-input effect check"},
 }
